@@ -623,6 +623,14 @@ def name_collision_suite(tier, seed):
                     if e["name"] == "a_b":
                         e["mgr_port_protocol"] = ["c" + x for x in sfx]
                 out.append((d, dict(t, topo="names", collision="port-port")))
+                # link signals are named <source>_to_<dest>: routers x, y_to_z, x_to_y, z with links x - y_to_z and
+                # x_to_y - z would both declare x_to_y_to_z_req
+                d, t = star(rng, 2, algo, nw, roles=["ms", "ms"], shapes=[None, None], nranges=[1, 1])
+                d = json.loads(json.dumps(d))
+                d["routers"] = [{"name": "x"}, {"name": "y_to_z"}, {"name": "x_to_y"}, {"name": "z"}]
+                d["connections"] = [{"src": "epa", "dst": "x"}, {"src": "epb", "dst": "z"}, {"src": "x", "dst": "y_to_z"},
+                                    {"src": "x_to_y", "dst": "z"}, {"src": "y_to_z", "dst": "x_to_y"}]
+                out.append((d, dict(t, topo="names", collision="link-link")))
             else:
                 d, t = mesh(rng, 2, 1, algo, nw, sides=("W",))
                 if d is not None:
